@@ -27,6 +27,12 @@ func main() {
 	switch os.Args[1] {
 	case "smoke":
 		os.Exit(smoke(newPool()))
+	case "replay":
+		if len(os.Args) < 3 {
+			fmt.Fprintln(os.Stderr, "usage: vcheck replay <file>")
+			os.Exit(2)
+		}
+		os.Exit(replay(os.Args[2]))
 	case "dev":
 		runDev(os.Args[2], os.Args[3:])
 	}
@@ -54,5 +60,7 @@ var checks = map[string]func() int{
 	"C14": checkC14,
 	"C15": checkC15,
 	"C17": checkC17,
+	"C18": checkC18,
+	"C19": checkC19,
 	"C16": checkC16,
 }
